@@ -2,7 +2,8 @@
 The lower-bound clauses (inequalities, tightness limits, fixed-point iteration) are NOT decided."""
 from .. import nf, build, model
 from ..build import sym
-from ..core import Ob
+from ..core import Ob, Refuted
+from ..nf import Undecided
 from .common import funcs_of
 from .approx import make_approx
 from .c16 import hetero_condition_ob
@@ -347,6 +348,59 @@ def bound_logdet_ob(cls):
               f"{A_}::{cls}.k_func", group="bound-logdet")
 
 
+_SINGULAR_AT_ZERO_W = ("get_density_of_linear_sum",)
+
+
+def _reachable_self_methods(prog, cls, entry):
+    """methods reachable from `cls.entry` through self.<m> / cls.<m> / super().<m> references (MRO-resolved, so hooks overridden in `cls` are followed)"""
+    import ast
+    seen, todo = {}, [entry]
+    while todo:
+        m = todo.pop()
+        if m in seen:
+            continue
+        r = prog.find_method(cls, m)
+        if r is None:
+            continue
+        seen[m] = r
+        for n in ast.walk(r[1]):
+            if isinstance(n, ast.Attribute) and isinstance(n.value, ast.Name) and n.value.id in ("self", "cls", cls, r[0]):
+                todo.append(n.attr)
+            elif isinstance(n, ast.Attribute) and isinstance(n.value, ast.Call) and isinstance(n.value.func, ast.Name) and n.value.func.id == "super":
+                todo.append(n.attr)
+    return seen
+
+
+def zero_weight_regular_ob(cls):
+    """the bound is exactly tight at zero input weights (exp, cosh-1): nothing on its path may build the Gaussian law of the linear predictor
+    h = w'x + w0 - its covariance w'Sigma w vanishes at w = 0 and GaussianPDF Cholesky-inverts it (inf / NaN)."""
+    def run():
+        import ast
+        prog = model.load()
+        def sites(c):
+            out = []
+            for m, (owner, fn) in sorted(_reachable_self_methods(prog, c, "integrate_log_conditional_y").items()):
+                for n in ast.walk(fn):
+                    if isinstance(n, ast.Call) and isinstance(n.func, ast.Attribute) and n.func.attr in _SINGULAR_AT_ZERO_W:
+                        out.append(f"{A_}:{n.lineno} in {owner}.{m}: `{ast.unparse(n)[:90]}`")
+            return out, len(_reachable_self_methods(prog, c, "integrate_log_conditional_y"))
+        control, _ = sites("HeteroscedasticReLUConditional")
+        if not control:
+            raise Undecided("positive control lost: the ReLU link no longer builds the law of the linear predictor on its bound path - the rule cannot be shown to see such calls")
+        bad, nm = sites(cls)
+        if nm < 6:
+            raise Undecided(f"only {nm} methods reachable from {cls}.integrate_log_conditional_y (floor 6)")
+        if bad:
+            raise Refuted(f"{bad[0]} builds the Gaussian law of the linear predictor on the bound path of {cls}: at zero input weights its covariance w'Sigma w is the "
+                          "zero matrix, whose Cholesky inverse is inf / NaN, so the bound is NaN where the property demands a zero gap",
+                          f"{A_}::{bad[0].split(' in ')[1].split(':')[0]}", bad)
+        return [], dict(methods=nm, control_sites=len(control))
+    return Ob(f"zero-weights/{cls}", run,
+              "no method on the bound path of the exp / cosh-1 links constructs the law of the linear predictor (singular at zero input weights, where the gap must be exactly zero); "
+              "structural necessary condition, positive control = the ReLU link",
+              f"{A_}::{cls}.integrate_log_conditional_y", group="zero-weights")
+
+
 def obligations(tier):
     obs = []
     for cls in CLASSES:
@@ -364,10 +418,13 @@ def obligations(tier):
         obs.append(bound_factor_ob(cls))
     for cls in ("HeteroscedasticExpConditional", "HeteroscedasticCoshM1Conditional"):
         obs.append(bound_logdet_ob(cls))
+        obs.append(zero_weight_regular_ob(cls))
+    from .c20 import summary_ob
+    obs += [summary_ob("normal_cdf"), summary_ob("normal_pdf")]      # the step / rectified-linear terms are stated in Phi / phi
     return obs
 
 
-FLOORS = {"group:conditional": 4, "group:coherent": 4, "group:lb-quadratic": 2, "group:bound-factor": 3, "group:bound-logdet": 2}
+FLOORS = {"group:conditional": 4, "group:coherent": 4, "group:lb-quadratic": 2, "group:bound-factor": 3, "group:bound-logdet": 2, "group:zero-weights": 2, "group:summary": 2}
 LEVEL = "other"
 EXPLANATION = ("PARTIAL: for all four link functions, condition_on_x has mean Mx+b and covariance AA' + A_k diag(link(Wx+w0)) A_k' (proved), and the coherence of the "
                "returned precision / log-determinant with that covariance is decided (refuted for generic Da >= Dy: known finding F10). Step link: the log-determinant term and the "
